@@ -9,16 +9,19 @@ import (
 	"net"
 	"strings"
 	"sync"
+	"sync/atomic"
 	"testing"
 	"time"
 
 	"github.com/daeuniverse/dae/pkg/verifutil"
 	"github.com/daeuniverse/outbound/netproxy"
+	"golang.org/x/sys/unix"
 )
 
 // behaviours emitted by spec/RelayStart.tla
 type rsBehaviour struct {
-	Port int `json:"port"`
+	Port int  `json:"port"`
+	Slow bool `json:"slow"` // small socket buffers towards the destination: writes complete in several parts
 	Hist []struct {
 		Ev    string `json:"ev"`
 		K     string `json:"k"`
@@ -41,6 +44,7 @@ func (c *rsAccepted) UnderlyingConn() net.Conn { return c.TCPConn }
 
 // the upstream dial is held at a gate
 type rsDialer struct {
+	slow    bool
 	target  string
 	once    sync.Once
 	started chan struct{}
@@ -55,7 +59,11 @@ func (d *rsDialer) DialContext(ctx context.Context, _ string, _ string) (netprox
 		return nil, ctx.Err()
 	}
 	var nd net.Dialer
-	return nd.DialContext(ctx, "tcp", d.target)
+	c, err := nd.DialContext(ctx, "tcp", d.target)
+	if err == nil && d.slow {
+		_ = c.(*net.TCPConn).SetWriteBuffer(2048)
+	}
+	return c, err
 }
 
 type rsSink struct {
@@ -86,7 +94,35 @@ func (s *rsSink) snapshot() ([]byte, bool) {
 
 const rsWait = 30 * time.Second
 
+// slow destinations: while a behaviour with slow=true runs, every writev of the relay's gather write is accepted by the
+// "kernel" only 1500 bytes at a time (a short write is what a nearly full send buffer gives; on loopback the buffers alone
+// never get that small). Other behaviours running at the same moment see short writes too, which is equally legitimate.
+var rsSlowActive atomic.Int32
+
+func rsWritev(fd int, iovs [][]byte) (int, error) {
+	if rsSlowActive.Load() == 0 {
+		return unix.Writev(fd, iovs)
+	}
+	left := 1500
+	var capped [][]byte
+	for _, b := range iovs {
+		if left == 0 {
+			break
+		}
+		if len(b) > left {
+			b = b[:left]
+		}
+		capped = append(capped, b)
+		left -= len(b)
+	}
+	return unix.Writev(fd, capped)
+}
+
 func rsRunOne(b *rsBehaviour, res *verifutil.Result) (infra string) {
+	if b.Slow {
+		rsSlowActive.Add(1)
+		defer rsSlowActive.Add(-1)
+	}
 	upLn, err := net.ListenTCP("tcp", &net.TCPAddr{IP: net.IPv4(127, 0, 0, 1)})
 	if err != nil {
 		return err.Error()
@@ -107,7 +143,7 @@ func rsRunOne(b *rsBehaviour, res *verifutil.Result) (infra string) {
 		return err.Error()
 	}
 	defer accepted.Close()
-	d := &rsDialer{target: upLn.Addr().String(), started: make(chan struct{}), gate: make(chan struct{})}
+	d := &rsDialer{slow: b.Slow, target: upLn.Addr().String(), started: make(chan struct{}), gate: make(chan struct{})}
 	cp, err := c05NewPlane(d)
 	if err != nil {
 		return "plane: " + err.Error()
@@ -117,6 +153,9 @@ func rsRunOne(b *rsBehaviour, res *verifutil.Result) (infra string) {
 	go func() {
 		c, err := upLn.AcceptTCP()
 		if err == nil {
+			if b.Slow {
+				_ = c.SetReadBuffer(2048)
+			}
 			upConn <- c
 		}
 	}()
@@ -149,7 +188,7 @@ func rsRunOne(b *rsBehaviour, res *verifutil.Result) (infra string) {
 	var trail []string
 	gateOpen := false
 	fail := func(suffix, format string, a ...any) {
-		res.Failf(fmt.Sprintf("c05start:%d:", b.Port)+strings.Join(trail, ";")+suffix, append([]string(nil), trail...), "[port %d, real sockets] %v: %s", b.Port, trail, fmt.Sprintf(format, a...))
+		res.Failf(fmt.Sprintf("c05start:%d:%v:", b.Port, b.Slow)+strings.Join(trail, ";")+suffix, append([]string(nil), trail...), "[port %d, real sockets%s] %v: %s", b.Port, map[bool]string{true: ", small buffers towards the destination", false: ""}[b.Slow], trail, fmt.Sprintf(format, a...))
 	}
 	openGate := func() string {
 		if gateOpen {
@@ -297,6 +336,9 @@ func TestVerifC05Start(t *testing.T) {
 	}()
 	// the connections are independent of one another (own sockets, own control plane): several at a time, because a
 	// port-53 flow whose first bytes look like a long DNS frame sits out the 5 s probe window in real time
+	oldWritev := relayWritevFunc
+	relayWritevFunc = rsWritev
+	defer func() { relayWritevFunc = oldWritev }()
 	workers := verifutil.EnvInt("VERIF_C05_PAR", 8)
 	var wg sync.WaitGroup
 	next := make(chan int)
